@@ -86,6 +86,25 @@ def run(rep, tier, seed):
     connfamily.run(rep, tier, seed, "C09", VFILE, RULE)
     run_client_level(rep, tier, seed)
     c = consts()
+    for host in ("living-room.local", "living-room", "printer.example.com"):
+        for cancel_at in (None, 1.0, 12.0):
+            elapsed, out = resolver_hang_probe(host, cancel_at)
+            replay = {"kind": "resolver-hang", "host": host, "cancel_at": cancel_at}
+            rep.case(("resolver-hang", host, cancel_at), True, sample={"probe": replay, "elapsed_units": elapsed, "outcome": out})
+            rep.bump("probe:resolver-hang")
+            where = f"address {host!r}, the mDNS query and getaddrinfo never answer"
+            if cancel_at is None:
+                if out in ("pending", "ok"):
+                    rep.violation("C09/hang", f"{where}: start_connection() {'still pending after five minutes' if out == 'pending' else 'succeeded'}", replay)
+                elif not out.startswith("L."):
+                    rep.violation("C09/raw-error", f"{where}: start_connection() ended with {out}", replay)
+                elif elapsed != c["RESOLVE_TIMEOUT"]:
+                    rep.violation("C09/bound", f"{where}: start_connection() failed after {elapsed} units (1/1024 s), the resolve deadline is {c['RESOLVE_TIMEOUT']}", replay)
+            else:
+                if elapsed > round(cancel_at * 1024) + 1024 or out == "pending":
+                    rep.violation("C09/cancel-ignored", f"{where}; the caller cancels start_connection() after {cancel_at} s: it ended only after {elapsed / 1024:.1f} s ({out})", replay)
+                elif out not in ("C",) and not out.startswith("L."):
+                    rep.violation("C09/raw-error", f"{where}; cancelled by the caller: ended with {out}", replay)
     for noise in (True, False):
         for stage in STAGES:
             if not noise and stage in ("hello-frame", "handshake"):
@@ -109,6 +128,66 @@ def run(rep, tier, seed):
                     rep.violation("C09/raw-error", f"{where}: finish_connection() ended with {out}", replay)
                 elif elapsed != want:
                     rep.violation("C09/bound", f"{where}: finish_connection() failed after {elapsed} units (1/1024 s), the armed deadline is {want}", replay)
+
+
+def resolver_hang_probe(host, cancel_at):
+    """The real resolver (mDNS query and getaddrinfo both never answer): start_connection() must end when the resolve deadline
+    passes, with a library error - or at once when its caller cancels it. Returns (seconds*1024 until it ended, outcome)."""
+    from unittest.mock import patch
+
+    async def go(loop):
+        from aioesphomeapi import host_resolver as hr
+        from aioesphomeapi.connection import APIConnection, ConnectionParams
+        from aioesphomeapi.zeroconf import ZeroconfManager
+        from checks.c20 import FakeAsyncZeroconf
+        never = loop.create_future()
+
+        class HangInfo:
+            def __init__(self, *a, **k):
+                pass
+
+            async def async_request(self, zc, timeout):
+                await asyncio.shield(never) if False else await loop.create_future()
+
+            def ip_addresses_by_version(self, version):
+                return []
+
+        async def hang_getaddrinfo(*a, **k):
+            await loop.create_future()
+        net = simnet.Net(loop)
+        params = ConnectionParams(addresses=[host], port=6053, password=None, client_info="v", keepalive=20.0,
+                                  zeroconf_manager=ZeroconfManager(), noise_psk=None, expected_name=None)
+        conn = APIConnection(params, lambda e: None, False, None)
+        with net.patched(resolver=False), patch.object(hr, "AsyncServiceInfo", HangInfo), \
+                patch("aioesphomeapi.zeroconf.AsyncZeroconf", FakeAsyncZeroconf), patch.object(loop, "getaddrinfo", hang_getaddrinfo):
+            t0 = loop.time()
+            task = asyncio.ensure_future(conn.start_connection())
+            await simnet.drain(loop)
+            cancelled_at = None
+            for _ in range(300):
+                if task.done():
+                    break
+                if cancel_at is not None and cancelled_at is None and loop.time() - t0 >= cancel_at:
+                    task.cancel()
+                    cancelled_at = loop.time() - t0
+                    await simnet.drain(loop)
+                    continue
+                await simnet.advance(loop, by=1.0)
+            elapsed = loop.time() - t0
+            if not task.done():
+                task.cancel()
+                out = "pending"
+            elif task.cancelled():
+                out = "C"
+            elif task.exception() is None:
+                out = "ok"
+            else:
+                out = conntrace.exc_name(task.exception())
+            conn.force_disconnect()
+            await simnet.drain(loop)
+            never.cancel()
+        return round(elapsed * 1024), out
+    return simnet.run(go)
 
 
 def client_stories():
@@ -136,7 +215,8 @@ def client_predicate(tr):
                 tid, res = o[1:].split("=", 1)
                 if res not in ("ok", "C") and not res.startswith("L."):
                     return ("C09/raw-error", f"client coroutine {tid} ended with {res}, not an error of the library's connection-error hierarchy")
-            if is_call and o.startswith("X") and o not in ("XALREADY", "XNC", "XNR", "XRT") and not o.startswith("XL."):
+            if is_call and o.startswith("X") and o not in ("XALREADY", "XNC", "XNR") and not o.startswith("XL.") \
+                    and not (o == "XRT" and label.startswith(("cstart", "cfinish"))):
                 return ("C09/raw-error", f"a client call raised {o[1:]}")
     for tid, r in getattr(tr, "task_outcomes", {}).items():
         if r[0] == "err" and not r[1].startswith("L.") and r[1] != "RT":
@@ -176,6 +256,10 @@ def replay(path):
             if l != "silent":
                 print(l, "|", p, "|", ",".join(o))
         print(client_predicate(tr))
+        return 0
+    if d.get("kind") == "resolver-hang":
+        common.setup_impl_path()
+        print(resolver_hang_probe(d["host"], d["cancel_at"]))
         return 0
     if d.get("kind") == "silence-probe":
         common.setup_impl_path()
